@@ -73,12 +73,18 @@ Definition s_group (flat : list (name * fnode)) : sgroups :=
   fold_left (fun acc kf => sg_add (fst kf) (snd kf) acc) flat [].
 
 Definition s_cond (E : env) (c : cond) : option bool :=
-  match c with CLit b => Some b | CVar v => assoc v E end.
-(** @skip(if: true) and @include(if: false) exclude the selection *)
+  match c with
+  | CLit b => Some b
+  | CVar v => match assoc v E with Some (Some b) => Some b | _ => None end
+  end.
+(** @skip(if: true) and @include(if: false) exclude the selection.  The algorithm does not say what
+    a directive means whose condition has no boolean value (a variable without value, or holding
+    null); the theorems exclude that case ([dirs_ok] inside [doc_ok]); the definition is totalised
+    the way the implementation behaves (the selection is left out). *)
 Definition s_excluded (E : env) (ds : list directive) : bool :=
   existsb (fun d => match d with
-                    | DSkip c => match s_cond E c with Some true => true | _ => false end
-                    | DInclude c => match s_cond E c with Some false => true | _ => false end
+                    | DSkip c _ _ => match s_cond E c with Some false => false | _ => true end
+                    | DInclude c _ _ => match s_cond E c with Some true => false | _ => true end
                     | DOther => false
                     end) ds.
 
@@ -383,7 +389,18 @@ Section DocOk.
     | Some (NScalar _) | Some (NEnum _) | Some NInput => false
     | _ => true
     end.
+  (** every @skip/@include condition has a boolean value: a literal, or a variable whose coerced
+      value is a boolean (variable coercion guarantees that except for a nullable variable with a
+      default that is explicitly given null) *)
+  Definition dir_ok (d : directive) : bool :=
+    match d with
+    | DSkip c _ _ => match s_cond E c with Some _ => true | None => false end
+    | DInclude c _ _ => match s_cond E c with Some _ => true | None => false end
+    | DOther => true
+    end.
+  Definition dirs_ok (s : selection) : bool := forallb dir_ok (sel_dirs s).
   Fixpoint sel_conds_ok (s : selection) : bool :=
+    dirs_ok s &&
     match s with
     | SField _ _ _ _ sub => forallb sel_conds_ok sub
     | SSpread _ _ _ => true
@@ -479,3 +496,16 @@ Section Shape.
     exists idxs, e_path e = p ++ map PIdx idxs /\
                  (e_locs e = first_loc fields \/ (idxs = [] /\ e_locs e = map fn_pos fields)).
 End Shape.
+
+(** ** GetOperation (June 2018, 6.1): without an operation name the document must contain exactly
+    one operation; with a name, the operation of that name (names are unique in a valid document;
+    a document in which they are not determines no operation). *)
+Definition s_named (n : name) (o : operation) : bool :=
+  match o_name o with Some m => name_eqb m n | None => false end.
+Definition s_get_operation (R : request_doc) (opname : option name) : option operation :=
+  match opname with
+  | None => match r_ops R with [o] => Some o | _ => None end
+  | Some n => match filter (s_named n) (r_ops R) with [o] => Some o | _ => None end
+  end.
+(** Request.OperationName: the empty string is "no name" *)
+Definition opname_of (n : name) : option name := match n with [] => None | _ => Some n end.
